@@ -103,6 +103,22 @@ example : parseLanguage "p".toList = none := by decide
 example : IsLocaleName "sr@latin".toList :=
   ⟨⟨"sr".toList, none, none, some "latin".toList⟩, ⟨⟨by decide, by decide⟩, trivial, trivial, ⟨by decide, by decide⟩⟩, by decide⟩
 
+/-- `Language.is_almost_equal` is an equivalence relation that contains equality (it compares a normal form) -/
+theorem almost_equal_equivalence (a b c : Language) :
+    isAlmostEqual a a = true ∧ (isAlmostEqual a b = isAlmostEqual b a)
+      ∧ (isAlmostEqual a b = true → isAlmostEqual b c = true → isAlmostEqual a c = true)
+      ∧ (a = b → isAlmostEqual a b = true) := by
+  unfold isAlmostEqual
+  refine ⟨by simp, ?_, ?_, ?_⟩
+  · rw [Bool.eq_iff_iff]
+    simp only [beq_iff_eq]
+    exact eq_comm
+  · intro h1 h2
+    have e1 : removePrincipalTerritory a = removePrincipalTerritory b := by simpa using h1
+    have e2 : removePrincipalTerritory b = removePrincipalTerritory c := by simpa using h2
+    simp [e1, e2]
+  · intro h; subst h; simp
+
 /-! ## Clause 2 — `fix_codes` -/
 
 /-- `fix_codes` succeeds iff the language code is in the ISO 639 table and the territory code (if any) in the ISO 3166 table;
